@@ -91,6 +91,8 @@ class Harness:
     def rust_literal(at, v):
         m = re.match(r"\[\s*(\w+)\s*;\s*(\d+)\s*\]$", at)
         if m:
+            if m.group(1) == "bool":
+                return "[" + ", ".join("true" if x else "false" for x in v) + "]"
             return "[" + ", ".join("%d%s" % (x, m.group(1)) for x in v) + "]"
         if at == "bool":
             return "true" if v else "false"
